@@ -94,6 +94,12 @@ func main() {
 	vlib.SeqsParallel(tokens, renderLen, workers, func(_ int, s string) { checkOne(s, true) })
 	vlib.SeqsParallel(chars, charLen, workers, func(_ int, s string) { checkOne(s, true) })
 
+	vectors := []string{
+		"javascript:alert(1)", "JaVaScRiPt:alert(1)", " javascript:alert(1)", "java\tscript:alert(1)", "java\nscript:alert(1)",
+		"\x01javascript:alert(1)", "javascript&colon;alert(1)", "javascript&#58;alert(1)", "jav&#x09;ascript:alert(1)",
+		"data:text/html,<script>alert(1)</script>", "vbscript:msgbox(1)", "//evil.example/x", "/\\evil.example", "http://ok/?q=javascript:x",
+		"feed:javascript:alert(1)", "view-source:javascript:x", "jar:http://x!/", "blob:http://x", "filesystem:http://x",
+	}
 	// histories: templ.URL(a) immediately followed by templ.URL(b) on one goroutine pinned to its thread (so that
 	// anything pooled or memoised by the first call is met by the second), for every pair of token strings ≤ 2
 	{
@@ -112,13 +118,41 @@ func main() {
 		run.Cov["two_call_histories"] = pairs
 	}
 
-	// every single-token insertion / replacement / deletion in known XSS vectors
-	vectors := []string{
-		"javascript:alert(1)", "JaVaScRiPt:alert(1)", " javascript:alert(1)", "java\tscript:alert(1)", "java\nscript:alert(1)",
-		"\x01javascript:alert(1)", "javascript&colon;alert(1)", "javascript&#58;alert(1)", "jav&#x09;ascript:alert(1)",
-		"data:text/html,<script>alert(1)</script>", "vbscript:msgbox(1)", "//evil.example/x", "/\\evil.example", "http://ok/?q=javascript:x",
-		"feed:javascript:alert(1)", "view-source:javascript:x", "jar:http://x!/", "blob:http://x", "filesystem:http://x",
+	// long histories: 300 calls with schemes never seen before (allowed ones in new spellings among them), and after
+	// every one of them all vectors again: a bounded cache or table that fills up, wraps or evicts must not change a verdict
+	{
+		runtime.LockOSThread()
+		long := 0
+		spell := func(s string, n int) string { // n-th case variant of s
+			b := []byte(s)
+			for i := range b {
+				if n&(1<<uint(i%8)) != 0 && b[i] >= 'a' && b[i] <= 'z' {
+					b[i] -= 32
+				}
+			}
+			return string(b)
+		}
+		for n := 0; n < 300; n++ {
+			var u string
+			switch n % 3 {
+			case 0:
+				u = fmt.Sprintf("x%d-scheme:payload", n)
+			case 1:
+				u = spell("https", n) + "://example.com/" + fmt.Sprint(n)
+			default:
+				u = spell("mailto", n) + ":a@example.com"
+			}
+			checkOne(u, false)
+			for _, v := range vectors {
+				checkOne(v, false)
+				long++
+			}
+		}
+		runtime.UnlockOSThread()
+		run.Cov["long_history_rechecks"] = long
 	}
+
+	// every single-token insertion / replacement / deletion in known XSS vectors
 	var wg sync.WaitGroup
 	sem := make(chan struct{}, workers)
 	mut := 0
